@@ -12,6 +12,36 @@ COMMON_NOTE = ("Trusted: Lean 4.33 kernel + axioms printed by #print axioms (onl
                "semantics and the puan-rspy wheel (outside /repo).")
 
 CHECKS = {
+    "C01": dict(
+        text=("Theorems (Props/C01.lean): for every tree (any depth/arity/sign/value/Int bounds, no compound pre-fixed), if x "
+              "agrees with the leaf assignment and carries each sub-proposition's evaluated truth value, every big-M row is "
+              "satisfied without asserting the top node (enc_feasible) and, with the top node asserted, all rows hold iff the "
+              "model evaluates to 1 (enc_active_iff); the extension exists (agrees_ext); the executable row list means the row "
+              "predicate (rows_spec). Tie: the model's row set and column list are compared with to_ge_polyhedron (both "
+              "`active` settings, rows from puan-rspy) on seeded random validated models; oracle: in-bounds assignments "
+              "extended by the real evaluate_propositions and tested on the real matrix with Python ints."),
+        note="Rows are compared as a set keyed by column id. puan-rspy's row construction is outside /repo; its observable output is what is modelled.",
+        technique="Lean 4 theorem (mutual structural induction, omega) + per-run model/code differential correspondence",
+        ref="§4 C01"),
+    "C02": dict(
+        text=("Theorems (Props/C02.lean): completeness — every in-bounds leaf assignment making the model true extends to an "
+              "in-box integer point of the asserted system (complete); soundness — in solver-safe form (no compound under a "
+              "negative parent) x(id) <= truth value for every node, hence the leaf part of every in-box integer point of the "
+              "asserted system makes the model true (sound, sound_active); the hypothesis is forced (unsafe_witness). Tie: same "
+              "encode correspondence as C01 incl. the solver-safe flag; oracle: brute-force enumeration of every in-box integer "
+              "point of the real matrix, both inclusions."),
+        note="Enumeration only for boxes up to 20000 (quick) / 300000 (thorough) points; auxiliary columns free.",
+        technique="Lean 4 theorem (mutual structural induction, omega) + per-run model/code differential correspondence",
+        ref="§4 C02"),
+    "C05": dict(
+        text=("Theorems (Props/C05.lean), about negate() as repaired by the fix: commit for defect D1: negate_compl — for every "
+              "tree and in-bounds assignment the negated model evaluates to 1 - original (all four branches of the inward push, "
+              "with the constructor's re-sorting); negate_safe — solver-safe + boolean leaves stays solver-safe; negate_keeps_id. "
+              "Tie: negate() output compared structurally (ids incl. SHA-256 generated ones, bounds, sign, value, child order, "
+              "generated flag); oracle: real evaluate on original and negation over all/sampled in-bounds assignments."),
+        note="Defect D1 was found by this check on the pinned tree and repaired (known_findings.json, corpus/C05).",
+        technique="Lean 4 theorem (mutual structural induction over the inward push) + per-run model/code differential correspondence",
+        ref="§4 C05"),
     "C03": dict(
         text=("Theorems (Props/C03.lean): on every interpretation fixing all leaves, interval evaluation returns exactly the "
               "point value of the arithmetic truth function with the two override rules (evaluate_total), which is the plain "
